@@ -34,7 +34,7 @@ pub enum SetupPolicy {
 /// workload mix of a property's check (weights and menus the per-run swarm draws from)
 #[derive(Clone, Debug)]
 pub struct Mix {
-    pub families: [u32; 8],
+    pub families: [u32; 10],
     pub policies: [u32; 7],
     pub caps: &'static [usize],
     pub fan: &'static [f64],
@@ -338,6 +338,10 @@ pub fn execute(ctx: &mut Ctx, eq: &mut EqTable, start: &Start, src: &mut dyn Sou
             if info.finished {
                 ctx.stats.inc("runs_ended_by_result");
                 break;
+            }
+            if w.cause == Cause::Place && !w.m.setup && w.m.steps_made() == 0 {
+                // a finished setup must hash and print like the same position parsed from text
+                w.check_roundtrip(ctx)?;
             }
             let ops = src.next_ops(&w, &info, pool.len());
             if ops.is_empty() {
